@@ -51,8 +51,15 @@ type poolObs struct {
 	// largest size visible (truth or lister) at the start of, or set during, every allocating call that is in flight or
 	// that returned since the previous observation: a call may legitimately allocate up to a size it can have seen
 	active   map[int64]int
-	finished []int
-	nextID   int64
+	activeOp map[int64]string // diagnostics: which entry point the in-flight call is
+	// every size the administrator has set so far (initial size first) and, per call, how many had been set when it
+	// started: a call may have read the size in force at its start (the last or, while that request is still being
+	// processed, the one before) or any size set while it runs
+	timeline    []int
+	activeFrom  map[int64]int
+	finishedMin int // smallest start index among calls returned since the previous observation (-1 = none)
+	finished    []int
+	nextID      int64
 	// size the administrator is in the middle of setting (-1 = none): between the moment the request is issued and the
 	// moment truth and lister show it, a call that starts still sees the old size but may read the new one later
 	adminSize int
@@ -90,6 +97,24 @@ func (r *Round) observePool(po *poolObs, name string) {
 	if po.adminSize > b {
 		b = po.adminSize
 	}
+	// every size set since the earliest start of a call that is in flight or returned since the last observation
+	minFrom := len(po.timeline) - 2
+	for _, f := range po.activeFrom {
+		if f < minFrom {
+			minFrom = f
+		}
+	}
+	if po.finishedMin >= 0 && po.finishedMin < minFrom {
+		minFrom = po.finishedMin
+	}
+	if minFrom < 0 {
+		minFrom = 0
+	}
+	for _, v := range po.timeline[minFrom:] {
+		if v > b {
+			b = v
+		}
+	}
 	for _, v := range po.active {
 		if v > b {
 			b = v
@@ -100,10 +125,18 @@ func (r *Round) observePool(po *poolObs, name string) {
 			b = v
 		}
 	}
-	po.finished = po.finished[:0]
 	if cnt > po.prev && cnt > b {
-		r.alarm("C07", "sized-pool-grew-beyond-size:concurrent", fmt.Sprintf("pool %s holds %d IPs (was %d) while the largest size in force since the previous observation was %d", name, cnt, po.prev, b))
+		var held []string
+		for _, f := range fips {
+			held = append(held, f.Key)
+		}
+		sort.Strings(held)
+		r.alarm("C07", "sized-pool-grew-beyond-size:concurrent", fmt.Sprintf("pool %s holds %d IPs (was %d) while the largest size in force since the previous observation was %d "+
+			"[tick %d: size now %d, window max %d, administrator setting %d, in-flight calls saw %v (%v), returned calls saw %v; sizes set so far %v; keys %v]",
+			name, cnt, po.prev, b, r.tick(), now, po.windowMax, po.adminSize, po.active, po.activeOp, po.finished, po.timeline, held))
 	}
+	po.finished = po.finished[:0]
+	po.finishedMin = -1
 	if cnt > po.prev {
 		r.count("pool_growths_observed", 1)
 		if cnt == b {
@@ -127,6 +160,7 @@ func (po *poolObs) settle() {
 func (po *poolObs) raise(sz int) {
 	po.mu.Lock()
 	po.adminSize = sz
+	po.timeline = append(po.timeline, sz)
 	if sz > po.windowMax {
 		po.windowMax = sz
 	}
@@ -149,7 +183,8 @@ func roundC07(seed int64, idx int) *Round {
 	}
 	size := 1 + rng.Intn(3)
 	ndp := 1 + rng.Intn(3)
-	po := &poolObs{windowMax: size, active: map[int64]int{}, adminSize: -1}
+	po := &poolObs{windowMax: size, active: map[int64]int{}, activeOp: map[int64]string{}, adminSize: -1,
+		timeline: []int{size}, activeFrom: map[int64]int{}, finishedMin: -1}
 	r.preOp = func(op string) func() {
 		if op != "filter" && op != "pool-set" && op != "bind" {
 			return nil
@@ -162,6 +197,12 @@ func roundC07(seed int64, idx int) *Round {
 		po.nextID++
 		id := po.nextID
 		po.active[id] = vis
+		po.activeOp[id] = op
+		from := len(po.timeline) - 2
+		if from < 0 {
+			from = 0
+		}
+		po.activeFrom[id] = from
 		po.mu.Unlock()
 		return func() {
 			po.mu.Lock()
@@ -169,6 +210,11 @@ func roundC07(seed int64, idx int) *Round {
 				vis = v
 			}
 			delete(po.active, id)
+			delete(po.activeOp, id)
+			if po.finishedMin < 0 || from < po.finishedMin {
+				po.finishedMin = from
+			}
+			delete(po.activeFrom, id)
 			po.finished = append(po.finished, vis)
 			po.mu.Unlock()
 		}
